@@ -488,7 +488,7 @@ impl Property for C20 {
     fn budget(&self, tier: Tier) -> Budget {
         match tier {
             Tier::Quick => Budget {
-                seconds: 30,
+                seconds: 60,
                 max_cases: 20_000,
             },
             Tier::Thorough => Budget {
